@@ -122,7 +122,53 @@ class ToolsModule(PG.PathModule):
         mod.io_roles = {"copy_file_data": [PG.READER, PG.WRITER]}
 
 
-MODULES = [WildModule, GlobModule, ToolsModule]
+class CopyModule(PG.PathModule):
+    """fs/copy.py: only the condition table `_copy_is_necessary`.  The two filesystems are read through
+    `getmodified(path)` / `exists(path)` on ONE path each, so each is abstracted as what those reads can return for
+    that path (`Option (Option Int)`: not found / found with an optional modification time) - the way
+    `copy_file_data` got its reader.  Everything else in the module drives filesystem objects."""
+    SOURCE = "fs/copy.py"
+    OUT = "CopyGen.lean"
+    NAMESPACE = "Fs.CopyGen"
+    MODNAME = "copy"
+    TAG = "CopyGen"
+    GENERATOR = "harness/extract/puregen.py"
+    EQ_MODULE = "FsProofs/CopyGenEq.lean"
+    HAND = "FsModel/Copy.lean (copyIsNecessary, compare)"
+    WANTED = ["_copy_is_necessary"]
+    HAND_MODEL = WANTED
+    OUT_OF_SCOPE = {n: "drives filesystem objects (C19 models it)" for n in (
+        "copy_fs", "copy_fs_if_newer", "copy_fs_if", "copy_file", "copy_file_if_newer", "copy_file_if",
+        "copy_file_internal", "copy_structure", "copy_dir", "copy_dir_if_newer", "copy_dir_if", "copy_modified_time")}
+    LEAN_IMPORTS = ["FsModel.PyStr"]
+    OPENS = "Fs Fs.PyStr"
+
+    def setup_module(self, mod):
+        mod.fs_roles = {"_copy_is_necessary": {"src_fs": "src_path", "dst_fs": "dst_path"}}
+
+
+class MirrorModule(PG.PathModule):
+    """fs/mirror.py: only `_compare(info1, info2)`; an `Info` is the two values the function reads from it,
+    `(size, modified)`."""
+    SOURCE = "fs/mirror.py"
+    OUT = "MirrorGen.lean"
+    NAMESPACE = "Fs.MirrorGen"
+    MODNAME = "mirror"
+    TAG = "MirrorGen"
+    GENERATOR = "harness/extract/puregen.py"
+    EQ_MODULE = "FsProofs/CopyGenEq.lean"
+    HAND = "FsModel/Copy.lean (compare)"
+    WANTED = ["_compare"]
+    HAND_MODEL = WANTED
+    OUT_OF_SCOPE = {"mirror": "drives filesystem objects (C19 models it)", "_mirror": "drives filesystem objects (C19 models it)"}
+    LEAN_IMPORTS = ["FsModel.PyStr"]
+    OPENS = "Fs Fs.PyStr"
+
+    def setup_module(self, mod):
+        mod.info_roles = ("_compare",)
+
+
+MODULES = [WildModule, GlobModule, ToolsModule, CopyModule, MirrorModule]
 
 
 def generate(repo_root, out_dir):
